@@ -82,7 +82,7 @@ func genC13(t *rapid.T) CaseC13 {
 		k := rapid.IntRange(1, 3).Draw(t, "nFaults")
 		for i := 0; i < k; i++ {
 			n := ls[rapid.IntRange(0, len(ls)-1).Draw(t, "faultNode")]
-			n.Fault = []string{"err", "err", "panic", "panic", "streamerr", "streampanic"}[rapid.IntRange(0, 5).Draw(t, "faultKind")]
+			n.Fault = []string{"err", "err", "panic", "panic", "streamerr", "streampanic", "cancelerr"}[rapid.IntRange(0, 6).Draw(t, "faultKind")]
 		}
 	}
 	return c
@@ -193,8 +193,15 @@ func checkC13(c CaseC13) (*vkit.Failure, vkit.Meta) {
 			matched := false
 			var why []string
 			for _, tg := range ref.FaultTags {
+				if kindOf[tg] == "cancelerr" && got == "canceled" && (eagerOnPath(c.Spec, tg) || nodePathRe.MatchString(rerr.Error())) {
+					// (a cancellation error that names a node path comes from a nested graph running in the same step)
+					// the failing body cancelled the context first; with eager execution (a workflow on the path) the run
+					// loop may notice the cancellation before it collects the failed node: both outcomes are legitimate
+					matched = true
+					continue
+				}
 				switch kindOf[tg] {
-				case "err", "streamerr":
+				case "err", "streamerr", "cancelerr":
 					var ie *gkit.InjectedError
 					if !errors.Is(rerr, gkit.ErrSentinel) || !errors.As(rerr, &ie) {
 						why = append(why, fmt.Sprintf("%s: errors.Is/As do not recover the injected error", tg))
@@ -292,6 +299,26 @@ func checkC13(c CaseC13) (*vkit.Failure, vkit.Meta) {
 		return nil, m
 	}
 	return f, m
+}
+
+// eagerOnPath: is the node (or one of the graphs that contain it) part of a workflow, or does a step of a
+// containing graph run other nodes besides it?  Only then can the run loop see a cancellation before the failure.
+func eagerOnPath(sp *gkit.Spec, tag string) bool {
+	cur := sp
+	for _, seg := range strings.Split(tag, "/") {
+		if cur == nil {
+			return true
+		}
+		if cur.Mode == "workflow" {
+			return true
+		}
+		n := cur.Node(seg)
+		if n == nil {
+			return true // chain stages and the like: not modelled, be permissive
+		}
+		cur = n.Sub
+	}
+	return false
 }
 
 var nodePathRe = regexp.MustCompile(`node path: \[([^\]]*)\]`)
